@@ -15,7 +15,7 @@ class TooBig(Exception):
     """The program's rendering explodes combinatorially (nested loops x nested components): not executed at all."""
 
 
-NODE_CAP = 150_000
+NODE_CAP = 25_000
 
 
 class ModelError(Exception):
